@@ -1,6 +1,6 @@
 (* Uniform executable entry point of the model for the correspondence check:
    run_case tag args = the observable outputs the implementation must produce for the same case. *)
-From DDSV Require Import base.Machine model.View.
+From DDSV Require Import base.Machine model.View model.Layout.
 
 Local Open Scope Z_scope.
 
@@ -36,9 +36,57 @@ Definition run_c20 (a : list Z) : list Z :=
   | _ => [-99]
   end.
 
+(* ---- C02: [dx10; w; h; depth_present; depth; mips; cube10; dim; array; caps2; pkind; a; b; c; d] *)
+Definition mk_pixel_info (k a b c d : Z) : pixel_info :=
+  if k =? 0 then Fixed (zn a) else if k =? 1 then Block (zn a) (zn b) (zn c) else BiPlanar (zn a) (zn b) (zn c) (zn d).
+Definition err_code (e : layout_error) : Z :=
+  match e with ZeroDimension => 1 | TooManyMipMaps => 2 | MissingDepth => 3
+             | InvalidCubeMapFaces => 4 | ArraySizeTooBig => 5 | DataLayoutTooBig => 6 end.
+Fixpoint dedup (l : list N) : list N :=
+  match l with [] => [] | x :: r => x :: filter (fun y => negb (y =? x)%N) (dedup r) end.
+Definition sample_idx (n : N) : list N :=
+  dedup (filter (fun i => i <? n)%N [0; 1; 2; n / 2; n - 2; n - 1]%N).
+Definition oz {A} (o : option A) (f : A -> list Z) : list Z := match o with Some a => f a | None => [-2] end.
+Definition out_surf (s : surf) : list Z := [nz (s_w s); nz (s_h s); nz (s_off s); nz (s_len s)].
+Definition out_tex (t : texture) : list Z :=
+  oz (tex_data_offset t) (fun o => [nz o]) ++ oz (tex_data_len t) (fun o => [nz o]) ++ oz (tex_data_end t) (fun o => [nz o]) ++
+  oz (tex_main t) out_surf ++
+  oz (tex_iter_mips t) (fun l => nz (N.of_nat (length l)) ::
+     flat_map (fun i => match nth_error l (N.to_nat i) with Some s => out_surf s | None => [-3] end) (sample_idx (t_mips t))).
+Definition out_vold (vd : vold) : list Z :=
+  [nz (vd_w vd); nz (vd_h vd); nz (vd_d vd); nz (vd_off vd); nz (vd_slice vd)] ++
+  oz (vold_data_len vd) (fun o => [nz o]) ++
+  flat_map (fun k => match get_depth_slice vd k with Some (Some s) => out_surf s | Some None => [-3] | None => [-2] end)
+           (sample_idx (vd_d vd)).
+Definition kind_code (k : array_kind) : list Z :=
+  match k with KTextures => [0; 0] | KCubeMaps => [1; 0] | KPartial f => [2; nz f] end.
+Definition out_layout (L : layout) : list Z :=
+  oz (layout_data_len L) (fun o => [nz o]) ++
+  match L with
+  | LTexture t => [0; nz (t_w t); nz (t_h t); nz (t_mips t)] ++ out_tex t
+  | LVolume v => [1; nz (vo_w v); nz (vo_h v); nz (vo_mips v)] ++
+      oz (vol_iter_mips v) (fun l => nz (N.of_nat (length l)) ::
+        flat_map (fun i => match nth_error l (N.to_nat i) with Some vd => out_vold vd | None => [-3] end) (sample_idx (vo_mips v)))
+  | LArray a => [2; nz (a_w a); nz (a_h a); nz (a_mips a)] ++ kind_code (a_kind a) ++ [nz (a_len a)] ++
+      flat_map (fun i => match arr_get a i with Some t => out_tex t | None => [-3] end) (sample_idx (a_len a))
+  end.
+Definition mk_lheader (dx10 w h dp d mips cube10 dim array caps2 : Z) : lheader :=
+  mkLH (negb (dx10 =? 0)) (zn w) (zn h) (if dp =? 0 then None else Some (zn d)) (zn mips)
+       (negb (cube10 =? 0)) (if dim =? 0 then Tex1D else if dim =? 1 then Tex2D else Tex3D) (zn array) (zn caps2).
+Definition run_c02 (a : list Z) : list Z :=
+  match a with
+  | [dx10; w; h; dp; d; mips; cube10; dim; array; caps2; pk; pa; pb; pc; pd] =>
+    match from_header_with (mk_lheader dx10 w h dp d mips cube10 dim array caps2) (mk_pixel_info pk pa pb pc pd) with
+    | LErr e => [0; err_code e]
+    | LOk L => 1 :: out_layout L
+    end
+  | _ => [-99]
+  end.
+
 Definition run_case (tag : Z) (args : list Z) : list Z :=
   match tag with
   | 20 => run_c20 args
+  | 2 => run_c02 args
   | _ => [-98]
   end.
 
